@@ -26,7 +26,7 @@ RULE = ("cases: one generator call = (generator, p, k, weight range, seed, retur
         ' Also: numpy-scalar arguments, weight ranges 1e-12..1e9, debug=True with return_ordering, results of earlier calls re-checked after later calls and the seeded call repeated after the caller overwrote an earlier result.')
 ASSUMPTIONS = ["Chernoff-KL bound for binomial tails; occupancy asserted only where the union bound for a missing (node, position) is < 1e-12"]
 EXHAUSTIVE = {"quick": False, "thorough": False}
-SOFT_LIMIT = {"quick": 240, "thorough": 1500}
+SOFT_LIMIT = {"quick": 1200, "thorough": 5400}      # generous wall-clock watchdogs (a loaded machine must not cut a workload short); normal run times are in the evidence
 REQUIRED_FUNCS = ["sempler/generators.py:dag_avg_deg", "sempler/generators.py:dag_full"]
 REQUIRED_COUNTERS = {"quick": {"calls:dag_avg_deg": 40000, "calls:dag_full": 8000, "freq:occupancy-asserted": 20, "freq:edge-law-asserted": 40,
                                "freq:pairs-asserted": 20, "corner:p0": 1, "corner:p1": 1},
